@@ -434,6 +434,11 @@ def check_property(pid, tier, seed, replay=None, verbose=True):
         else:
             violations.append(f)
 
+    if violations:
+        cnt = {}
+        for f in violations:
+            cnt[f["sig"]] = cnt.get(f["sig"], 0) + 1
+        log("[%s] unlisted failing signatures this run: %s" % (pid, ", ".join("%s x%d" % kv for kv in sorted(cnt.items()))))
     # ---- confirm violations: replay 3x from the saved case --------------------------
     confirmed = []
     seen_sig = set()
